@@ -40,6 +40,7 @@ def run(ctx, R):
     from . import c10
     c10.blind_structure_reads(F, R, "C20")   # a Str cell is a list cell only if its functor is '.'/2
     _c20_extra(F, R)                          # two strings order like the lists they denote: whole code points are compared
+    pstr_positions_advance_by_bytes(F, R)
     R.rule("RF10/RF1: every tag dispatch that names Lis names PStrLoc (and conversely) or is a listed exception")
     n_both = 0
     n_one = 0
@@ -171,3 +172,26 @@ def list_walkers(F, R):
 def _c20_extra(F, R):
     from .c13 import pstr_utf8_window
     pstr_utf8_window(F, R, "C20")
+
+
+def pstr_positions_advance_by_bytes(F, R):
+    """A packed string is addressed by a byte location; its characters have one to four bytes. The helpers that count the
+    characters of a segment keep two counters (characters, bytes); a location inside the string is the start plus the
+    BYTE counter. Rule: in those helpers every `pstr_loc + x` adds a local that is accumulated from len_utf8()."""
+    fns = [p for p, it in F.items.items() if it["file"] == "src/machine/system_calls.rs" and it["kind"] == "Fn" and re.search(r"::pstr_segment_char_count_(up_to|and_tail)$", p)]
+    if len(fns) != 2:
+        raise AnchorLost("pstr_segment_char_count helpers (%d)" % len(fns))
+    n = 0
+    for fn in sorted(fns):
+        body = F.hir(fn)["body"]
+        bytes_locals = {res_name(x["lhs"]) for x in walk(body) if x["k"] == "AssignOp" and x["lhs"].get("k") == "Path"
+                        and any(y["k"] == "MethodCall" and y["name"] == "len_utf8" for y in walk(x["rhs"]))}
+        for x in walk(body):
+            if x["k"] == "Binary" and x["op"] == "Add" and x["a"].get("k") == "Path" and res_name(x["a"]) == "pstr_loc":
+                n += 1
+                other = res_name(x["b"]) if x["b"].get("k") == "Path" else None
+                R.ob("C20:pstr-position:advanced-by-the-byte-counter:%s@%d" % (short(fn), x["ln"] - F.items[fn]["line"]), other in bytes_locals,
+                     "%s computes a location inside the string as pstr_loc + %s; only %s are byte counts (accumulated from len_utf8()): adding a character count lands inside "
+                     "a multi-byte character or short of the position (skipping the first N elements of a string with non-ASCII text resumes at the wrong place)"
+                     % (short(fn), other, sorted(bytes_locals)), F.where(fn))
+    R.floor("locations computed inside a packed string by the counting helpers", n, 3)
